@@ -1107,6 +1107,15 @@ func (t *txRun) op(op *Op) *Violation {
 		return nil
 
 	case OpFree:
+		if op.B == 1 {
+			// count from the end: the (A+1)-th last freeable handle (the most recently allocated pages)
+			hs := t.T.Handles(t.freeable)
+			if len(hs) == 0 {
+				r.count("noop")
+				return nil
+			}
+			return t.free(hs[len(hs)-1-op.A%len(hs)])
+		}
 		h, ok := pick(t.T, op.A, t.freeable)
 		if !ok {
 			r.count("noop")
